@@ -179,3 +179,63 @@ Definition canonical_count (s : snap) (e : edge) : option N :=
   | Some (s', e') => Some (count_reach s' e')
   | None => None
   end.
+
+(** ** The textbook count (BDD kind): distinct subfunctions
+
+    An oracle for the node count that does not build a diagram at all: the
+    number of nodes of level [L] is the number of distinct pairs (then-cofactor,
+    else-cofactor) of the subfunctions obtained by fixing the levels above
+    [L] whose two components differ (the subfunction depends on level [L]);
+    the number of terminals is the number of distinct values.  Subfunctions
+    are compared through their truth tables.  Proved equal to [count_reach]
+    in DD/BuildCanonSize.v. *)
+
+(** truth table of [fun c => f (cmerge lvl cnt c0 c)] over the [cnt] levels
+    from [lvl] on ("then" half first) *)
+Fixpoint table (lvl cnt : nat) (f : cfun) (c0 : nat -> nat) : list bool :=
+  match cnt with
+  | O => [f c0]
+  | S k => table (S lvl) k f (cset c0 lvl 0) ++ table (S lvl) k f (cset c0 lvl 1)
+  end.
+
+(** for every way of fixing the [d] levels from [lvl] on: the tables (over the
+    [k] levels below) of the two cofactors w.r.t. level [lvl + d] *)
+Fixpoint subpairs (lvl d k : nat) (f : cfun) (c0 : nat -> nat) : list (list bool * list bool) :=
+  match d with
+  | O => [(table (S lvl) k f (cset c0 lvl 0), table (S lvl) k f (cset c0 lvl 1))]
+  | S d' => subpairs (S lvl) d' k f (cset c0 lvl 0) ++ subpairs (S lvl) d' k f (cset c0 lvl 1)
+  end.
+
+Fixpoint bools_eqb (a b : list bool) : bool :=
+  match a, b with
+  | [], [] => true
+  | x :: r, y :: t => Bool.eqb x y && bools_eqb r t
+  | _, _ => false
+  end.
+
+Definition pair_eqb (a b : list bool * list bool) : bool :=
+  bools_eqb (fst a) (fst b) && bools_eqb (snd a) (snd b).
+
+(** remove duplicates (w.r.t. the Boolean equality test [eqb]) *)
+Fixpoint dedup {A : Type} (eqb : A -> A -> bool) (l : list A) : list A :=
+  match l with
+  | [] => []
+  | x :: r => if existsb (eqb x) r then dedup eqb r else x :: dedup eqb r
+  end.
+
+(** the two cofactors differ *)
+Definition essential (pr : list bool * list bool) : bool := negb (bools_eqb (fst pr) (snd pr)).
+
+(** number of nodes of level [L] in the reduced BDD of [f] over [n] levels *)
+Definition level_nodes (n L : nat) (f : cfun) : nat :=
+  length (dedup pair_eqb (filter essential (subpairs 0 L (n - S L) f (fun _ => 0)))).
+
+Fixpoint sum_upto (n : nat) (g : nat -> nat) : nat :=
+  match n with
+  | O => 0
+  | S k => sum_upto k g + g k
+  end.
+
+(** inner nodes of all levels + distinct terminal values *)
+Definition canon_size_bdd (n : nat) (f : cfun) : N :=
+  N.of_nat (sum_upto n (fun L => level_nodes n L f) + length (dedup Bool.eqb (table 0 n f (fun _ => 0)))).
